@@ -398,10 +398,62 @@ theorem keeps_durationT (g : GOps V) : Keeps (durationT g : M (World V) V) := by
   · exact keeps_throw _
   · exact keeps_bind (keeps_getObs _ _ _) (fun _ => keeps_bind (keeps_getObs _ _ _) (fun _ => keeps_pure _))
 
+omit [AbsTime V] in
+theorem keeps_tryFinally {m : M (World V) α} {fin : M (World V) Unit} (h1 : Keeps m) (h2 : Keeps fin) : Keeps (M.tryFinally m fin) := by
+  intro w
+  unfold M.tryFinally
+  have e1 := h1 w
+  cases hm : m w with
+  | mk r w1 =>
+    rw [hm] at e1
+    have e2 := h2 w1
+    cases hf : fin w1 with
+    | mk r2 w2 =>
+      rw [hf] at e2
+      simp only [hf]
+      cases r2 <;> exact e2.trans e1
+
+theorem keeps_names : Keeps (Tbl.names : M (World V) (List String)) := keeps_read (fun _ => rfl)
+
+theorem keeps_purge : Keeps (purge : M (World V) Unit) := by
+  unfold purge
+  refine keeps_bind keeps_names (fun l => keeps_forEach _ (fun af => ?_) _)
+  split
+  · exact keeps_remove af
+  · exact keeps_pure _
+
+/-- the assignment `abs_curv = #0` of the expression evaluator: read, remove, create — features only -/
+theorem keeps_assign_abs_curv (o : Ops V) : Keeps (assignOp o (.tok "abs_curv") (.tok "#0") : M (World V) Unit) := by
+  unfold assignOp hasSV
+  refine keeps_bind (keeps_has _) (fun b => ?_)
+  split
+  · refine keeps_bind (keeps_has _) (fun b2 => ?_)
+    split
+    · have : ("abs_curv" == "x" || "abs_curv" == "y" || "abs_curv" == "z" || "abs_curv" == "t") = false := by decide
+      simp only [this, Bool.false_eq_true, if_false]
+      exact keeps_bind (keeps_get o _) (fun _ => keeps_bind (keeps_remove _) (fun _ => keeps_create _ _))
+    · exact keeps_bind (keeps_get o _) (fun _ => keeps_create _ _)
+  · have : coordTarget (SV.tok "abs_curv" : SV V) = none := by simp [coordTarget]
+    simp only [this]
+    refine keeps_bind (keeps_has _) (fun b2 => ?_)
+    split
+    · refine keeps_bind ?_ (fun v => keeps_update _ _)
+      unfold toFloat
+      repeat' split
+      all_goals first | exact keeps_pure _ | exact keeps_throw _
+    · refine keeps_bind ?_ (fun v => keeps_create _ _)
+      unfold toFloat
+      repeat' split
+      all_goals first | exact keeps_pure _ | exact keeps_throw _
+
+theorem keeps_integExprT (g : GOps V) : Keeps (integExprT g : M (World V) Unit) := by
+  unfold integExprT
+  exact keeps_tryFinally (keeps_bind (keeps_unaryVoid _ _ _ _ (by decide)) (fun _ => keeps_assign_abs_curv _)) keeps_purge
+
 /-- the operations of a history that compute, read, remove or write FEATURES (not the in-place edits of positions /
 stamps and not the operations that make new tracks) -/
 def WOp.onFeatures : WOp V → Bool
-  | .absCurv _ | .speed _ | .speedAF _ | .dsAF _ | .integ _ | .diff _ | .length _ | .curvAbs _ | .read _ _
+  | .absCurv _ | .speed _ | .speedAF _ | .dsAF _ | .integ _ | .integExpr _ | .diff _ | .length _ | .curvAbs _ | .read _ _
   | .remove _ _ | .write _ _ _ | .sorted _ | .duration _ | .times _ => true
   | _ => false
 
@@ -425,6 +477,7 @@ theorem stepW_frame (g : GOps V) (op : WOp V) (hop : op.onFeatures = true) (w : 
     | speedAF k => exact key _ (keeps_addAFfn _ _ (keeps_speedAlgT g) _) _
     | dsAF k => exact key _ (keeps_addAFfn _ _ (keeps_dsAlgT g) _) _
     | integ k => exact key _ (keeps_unaryVoid _ _ _ _ (by decide)) _
+    | integExpr k => exact key _ (keeps_integExprT g) _
     | diff k => exact key _ (keeps_unaryVoid _ _ _ _ (by decide)) _
     | length k => exact key _ (keeps_lengthT g) _
     | curvAbs k => exact key _ (keeps_curvAbsT g) _
